@@ -69,6 +69,8 @@ def gen(rng, i, tier):
         c['machine']['ignore'] = rng.random() < 0.5
         c['history'] = [(0, rng.choice([0, 1, 7, 8]), 100 + j) for j in range(rng.randint(2, 5))]
     c['cls'] = CLASSES[i % len(CLASSES)]
+    if i % 7 == 3:
+        c['attr'] = 'mode'          # custom model_attribute
     c['mixed'] = mixed
     return c
 
